@@ -60,3 +60,12 @@ pub const RECV_STORE_ENDED2: u32 = 39;
 pub const RECV_NOTIFIED_CREATE: u32 = 42;
 pub const STOP_STORE_ENDED: u32 = 40;
 pub const STOP_NOTIFY: u32 = 41;
+// media::pipeline, SampleQueueReceiver::recv (the sender side reuses the SRC_* ids; the second
+// closed load of recv sits inside one `&&` expression right after is_empty(), see EMPTY_LOADS)
+pub const Q_LOCK: u32 = 50;
+pub const Q_UNLOCK_RET: u32 = 51;
+pub const Q_LOAD_CLOSED1: u32 = 52;
+pub const Q_UNLOCK_EOS: u32 = 53;
+pub const Q_UNLOCK_WAIT: u32 = 54;
+pub const Q_NOTIFIED_CREATE: u32 = 55;
+pub const Q_AWAIT: u32 = 57;
